@@ -24,7 +24,7 @@ def secs(a, b):
 def run(ctx):
     ctx.extra["rule"] = ("file sets with chosen stamps (1990-2037) and acquisition times (1-600 s): Silixa double-ended xml (stamps carry their UTC offset), Sensortran binary (epoch "
                          "seconds), Sensornet .ddf (naive stamps read in timezone_input_files, incl. DST zones and stamps next to a DST transition); each read in a fresh process under "
-                         "host TZ in {UTC, America/New_York, Asia/Kolkata, Pacific/Auckland} and with two output zones; intervals, instants and host independence compared")
+                         "host TZ in {UTC, America/New_York, Asia/Kolkata, Pacific/Auckland} and with two output zones; intervals, instants and host independence compared; measurements within one acquisition time of a daylight-saving transition of the OUTPUT zone (EU, US, NZ)")
     ctx.trusted += ["harness vlib/props/c12.py, vlib/tz_worker.py, vlib/gen_files.py", "pandas / zoneinfo time-zone tables are runtime data, not modelled"]
     ctx.assumptions += ["the file stamp is the end of the forward measurement (single ended: of the measurement)"]
     rng = ctx.rng("c12")
@@ -115,6 +115,51 @@ def run(ctx):
             acq = o.get("acquisitiontimeFW", [None])[0]
             if o["timeend"][0] != "2021-03-28T01:00:05" or secs(o["timeend"][0], o["timestart"][0]) != acq:
                 ctx.violation("sensornet:dst-transition-wrong", f"timestart {o['timestart'][0]} timeend {o['timeend'][0]} acquisition {acq}", rec)
+        # ---- output zone with daylight saving: a measurement within one acquisition time of a transition of timezone_netcdf.
+        # Every coordinate, read as wall-clock time of timezone_netcdf, must be the instant obtained by arithmetic on the instant of the stamp.
+        from datetime import datetime, timedelta, timezone
+        from zoneinfo import ZoneInfo
+        edges = [("Europe/Amsterdam", datetime(2021, 3, 28, 1, 0, 0)), ("Europe/Amsterdam", datetime(2021, 10, 31, 1, 0, 0)),
+                 ("America/New_York", datetime(2021, 3, 14, 7, 0, 0)), ("Pacific/Auckland", datetime(2021, 4, 3, 14, 0, 0)), ("Europe/Amsterdam", datetime(2021, 6, 1, 12, 0, 0))]
+        if ctx.quick:
+            edges = [edges[int(rng.integers(0, 4))], edges[1], edges[4]]
+        for ei, (zone, edge_utc) in enumerate(edges):
+            for kind, tdir in (("single", "sensornet_oryx_v3.7"), ("double", "sensornet_oryx_v3.7_double")):
+                for off in (5, -5):
+                    stamp = edge_utc + timedelta(seconds=off)
+                    d = os.path.join(tmp, f"dstout{ei}{kind}{off}")
+                    os.makedirs(d, exist_ok=True)
+                    src = sorted(G.glob(f"/repo/tests/data/{tdir}/*.ddf"))[0]
+                    lines = re.split(r"\r\n|\r|\n", open(src, encoding="windows-1252", newline="").read())
+                    for i, l in enumerate(lines[:40]):
+                        if l.startswith("date\t"):
+                            lines[i] = "date\t" + stamp.strftime("%Y/%m/%d")
+                        if l.startswith("time\t"):
+                            lines[i] = "time\t" + stamp.strftime("%H:%M:%S")
+                    open(os.path.join(d, f"channel 1 {stamp.strftime('%Y%m%d %H%M%S')} 00001.ddf"), "w", encoding="windows-1252", newline="").write("\n".join(lines))
+                    rec = {"reader": "sensornet", "case": "transition of the OUTPUT zone", "kind": kind, "stamp_utc": stamp.isoformat(), "timezone_netcdf": zone}
+                    ctx.case(("dst-out", zone, edge_utc.isoformat(), kind, off), sample=rec)
+                    o = worker("sensornet", d, {"timezone_input_files": "UTC", "timezone_netcdf": zone})
+                    if "error" in o:
+                        ctx.violation(f"sensornet:output-zone-transition-raised:{kind}", o["error"], rec)
+                        continue
+                    fw = o.get("acquisitiontimeFW", [0])[0]
+                    bw = o.get("acquisitiontimeBW", [0])[0] if kind == "double" else 0
+                    if kind == "single":
+                        want = {"timestart": stamp - timedelta(seconds=fw), "timeend": stamp, "time": stamp - timedelta(seconds=fw / 2)}
+                    else:
+                        want = {"timestart": stamp - timedelta(seconds=fw), "time": stamp, "timeend": stamp + timedelta(seconds=bw)}
+                    for k, w in want.items():
+                        naive = datetime.fromisoformat(o[k][0])
+                        cands = []
+                        for fold in (0, 1):
+                            loc = naive.replace(tzinfo=ZoneInfo(zone), fold=fold)
+                            u = loc.astimezone(timezone.utc)
+                            if u.astimezone(ZoneInfo(zone)).replace(tzinfo=None) == naive:  # the wall-clock time exists
+                                cands.append(u.replace(tzinfo=None))
+                        if not any(abs((c_ - w).total_seconds()) <= 1 for c_ in cands):
+                            ctx.violation(f"sensornet:output-zone-instant-wrong:{kind}:{k}", f"{k} = {o[k][0]} read in {zone} is {'no existing wall-clock time' if not cands else cands[0].isoformat() + ' UTC'}; "
+                                          f"the instant is {w.isoformat()} UTC (stamp {stamp.isoformat()} UTC, acquisition {fw}+{bw} s)", rec)
     finally:
         shutil.rmtree(tmp, ignore_errors=True)
 
